@@ -1,7 +1,7 @@
 """C18 -- substitution and scaling utilities preserve the represented function."""
 from fractions import Fraction as F
 
-from .. import gen, ref
+from .. import core, gen, ref
 from .. import lib as L
 from ..ref import Poly, frac
 
@@ -233,6 +233,16 @@ def case(ctx, rng, idx):
             ctx.nontrivial((fn, tn, sorted(snap.items(), key=repr), val, method))
     ctx.sample({"function": fn, "type": tn, "terms": snap, "args": {k: v for k, v in w.items() if k not in ("function", "type", "terms")},
                 "result": dict(r)}, limit=3)
+    if fn in ("subvalue", "subgraph") and not method and rng.random() < 0.3:
+        first = dict(r)
+        core.scribble(r)
+        if fn == "subvalue":
+            ok, r2 = ctx.call("subvalue", L.utils.subvalue, w["values"], m, _w=w)
+        else:
+            ok, r2 = ctx.call("subgraph", L.utils.subgraph, m, w["nodes"], w["connections"], _w=w)
+        ctx.count("second-call-after-result-edited")
+        if ok and (r2 is r or {k: repr(v) for k, v in r2.items()} != {k: repr(v) for k, v in first.items()}):
+            ctx.violation(fn + ":second-call-differs", "after the first result was edited, the same call gives %r (first: %r)" % (dict(r2), first), w)
 
 
 def check_common(ctx, fn, m, snap, r, w):
